@@ -19,7 +19,12 @@ def generate(rng, tier):
     cases = []
     for i in range(n):
         gk = ["uniform0", "uniform", "jitter", "nonuniform"][i % 4]
-        c = F.gen_ft_case(rng, tier, lorch=True, channel=2, win=("hi_grid" if i % 3 == 0 else "none"), grid_kind=gk)
+        if i % 8 == 7:      # abscissae not stored in ascending order: the constant is still pi / (largest abscissa)
+            c = F.gen_ft_case(rng, tier, lorch=True, channel=2, win="none", unsorted=True)
+            if max(c["xin"]) <= 0:
+                c["xin"] = [v + 1.0 for v in c["xin"]]
+        else:
+            c = F.gen_ft_case(rng, tier, lorch=True, channel=2, win=("hi_grid" if i % 3 == 0 else "none"), grid_kind=gk)
         c["poison"] = i % 3
         cases.append(c)
     return cases
@@ -46,7 +51,8 @@ def oracle(pystog, case, res):
     n = len(case["xin"])
     for fill in FILLS:
         F.poison({n, len(case["xout"])} | set(range(max(1, n - 3), n + 1)), fill)
-        _, y2, e2 = F.call_ft(pystog, case)
+        with F.poisoned_empty(fill):
+            _, y2, e2 = F.call_ft(pystog, case)
         if not (np.array_equal(y2, yo) and np.array_equal(e2, eo)):
             return "result not reproducible: differs after heap fill %r" % fill
     hi = case["xmax"] if case["xmax"] is not None else max(case["xin"])
